@@ -8,6 +8,8 @@ CONSTANTS
   MaxErr = 10
   Secondaries = {"none"}
   WithDelete = FALSE
+  WithSame = FALSE
+  NW = 4
   Emit = FALSE
 INIT TraceInit
 NEXT TraceNext
